@@ -374,9 +374,9 @@ def math (name : String) (a : JNum) : Option JNum :=
   | "floor" => some (match a.repr with | .int i => ⟨.int i, none⟩ | .flt f => ofFloatIntegral f.floor)
   | "ceil" => some (match a.repr with | .int i => ⟨.int i, none⟩ | .flt f => ofFloatIntegral f.ceil)
   | "round" => some (match a.repr with | .int i => ⟨.int i, none⟩ | .flt f => ofFloatIntegral f.round)
-  | "floor_i64" => some (match a.repr with | .int i => ⟨.int i, none⟩ | .flt f => ofI (floatAsI64 f.floor))
-  | "ceil_i64" => some (match a.repr with | .int i => ⟨.int i, none⟩ | .flt f => ofI (floatAsI64 f.ceil))
-  | "round_i64" => some (match a.repr with | .int i => ⟨.int i, none⟩ | .flt f => ofI (floatAsI64 f.round))
+  | "floor_i64" => some (match a.repr with | .int i => ofI (floatAsI64 (intToFloat i).floor) | .flt f => ofI (floatAsI64 f.floor))
+  | "ceil_i64" => some (match a.repr with | .int i => ofI (floatAsI64 (intToFloat i).ceil) | .flt f => ofI (floatAsI64 f.ceil))
+  | "round_i64" => some (match a.repr with | .int i => ofI (floatAsI64 (intToFloat i).round) | .flt f => ofI (floatAsI64 f.round))
   | "length" => some (match a.repr with
       | .int i => if inI64 (-i) || i ≥ 0 then ⟨.int (if i < 0 then -i else i), none⟩ else ⟨.flt (intToFloat i).abs, none⟩
       | .flt f => ⟨.flt f.abs, none⟩)
@@ -426,6 +426,11 @@ instance : NumOps JNum where
     | "pow" => some (JNum.ofF (Float.pow a.toF b.toF))
     | "atan2" => some (JNum.ofF (Float.atan2 a.toF b.toF))
     | _ => none
+  unstable := fun n =>
+    match n.repr, n.lit with
+    | .flt f, none =>
+      f.isFinite && f.floor == f && f.abs ≥ 9007199254740992.0 && f ≥ -9223372036854775808.0 && f < 9223372036854775808.0
+    | _, _ => false
 
 /-! ### printing -/
 section print
